@@ -2,10 +2,10 @@
 ParsePrintSim — the simulation statements of the action side with filters: for each printed
 construct, the machine either pushes the item(s) of what `Build` builds and continues with the
 tokens that follow, or stops with the error `Build` raises (first error in token order = first
-error in `Build`'s evaluation order).
+error in `Build`'s evaluation order), at the EXPLICIT position that ParsePrintPos computes for the
+construct (`posStep`, `posQ`, `posOperand`, `posPath`).
 -/
-import JPV.Lemmas.ParsePrintB
-import JPV.Lemmas.ParsePrintExt
+import JPV.Lemmas.ParsePrintPos
 namespace JPV.PP
 open JPV.Peg JPV.Print JPV.Lex JPV.Build
 
@@ -15,31 +15,37 @@ def stopOf (pos : Nat) : ParseErr → Stop
   | .valueGroupOperand => .syntaxErr pos .filterValueGroup
   | .twoCurrentNodes => .syntaxErr pos .twoCurrentNode
 
+/-- an unknown function: the position is irrelevant -/
+theorem stopOf_fn (pos pos' : Nat) (t : String) : stopOf pos (.funcNotFound t) = stopOf pos' (.funcNotFound t) := rfl
+
 /-- on a non-empty stack, the tokens `toks` push `items v` when `Build` answers `v`, and stop the
-    machine when `Build` fails -/
-structure Sim {α : Type} (c : Ctx) (toks : List Tok) (items : α → List Item) (b : Except ParseErr α) : Prop where
+    machine when `Build` fails — with the panic value of the error, at position `pos` -/
+structure Sim {α : Type} (c : Ctx) (toks : List Tok) (items : α → List Item) (b : Except ParseErr α)
+    (pos : Nat) : Prop where
   ok : ∀ v, b = .ok v → ∀ (stk : List Item) (sv : List (List Item)) (rt : Option (List N)) (tb te : Nat),
     stk ≠ [] → ∃ tb' te', ∀ rest,
       execFrom c ⟨stk, sv, rt, tb, te⟩ (toks ++ rest) = execFrom c ⟨items v ++ stk, sv, rt, tb', te'⟩ rest
   err : ∀ e, b = .error e → ∀ (stk : List Item) (sv : List (List Item)) (rt : Option (List N)) (tb te : Nat),
-    stk ≠ [] → ∃ pos, ∀ rest,
+    stk ≠ [] → ∀ rest,
       execFrom c ⟨stk, sv, rt, tb, te⟩ (toks ++ rest) = .error (stopOf pos e)
 
 /-- a step: the chain of the raw nodes of its written elements -/
 def StepSim (c : Ctx) (cfg : Cfg) (ad : Bool) (s : Step) : Prop :=
   ∀ (p : Nat) (r : List Char), Sfx c.input p (Print.step ad s ++ r) →
     Sim c (tkStep ad p s) (fun pres : List Pre => [Item.chain (pres.map (rawOf c.acc))])
-      (stepPre c.env cfg (stepT ad s))
+      (stepPre c.env cfg (stepT ad s)) (posStep c.env cfg ad p s)
 
 /-- a filter query printed at precedence `prec` -/
 def QSim (c : Ctx) (cfg : Cfg) (q : Query) : Prop :=
   ∀ (prec p : Nat) (r : List Char), Sfx c.input p (query prec q ++ r) →
     Sim c (tkQ prec p q) (fun q' : Q => [Item.query q']) (buildQ c.env cfg (queryT q))
+      (posQ c.env cfg prec p q)
 
 /-- an operand of a comparison -/
 def OperandSim (c : Ctx) (cfg : Cfg) (o : Operand) : Prop :=
   ∀ (ord : Bool) (p : Nat) (r : List Char), Sfx c.input p (operand o ++ r) →
     Sim c (tkOperand ord p o) (fun x : P => [Item.cp x]) (buildOperand c.env cfg (operandT o))
+      (posOperand c.env cfg p o)
 
 def headP (h : Head) (ch : List N) : P :=
   match h with
@@ -55,6 +61,6 @@ def ParamSim (c : Ctx) (cfg : Cfg) (q : Path) : Prop :=
   ∀ (p : Nat) (r : List Char), Sfx c.input p (path q ++ r) →
     Sim c (.action 38 :: (tkPath p q ++ [.action 39]))
       (fun ch : List N => [Item.bool (decide (pathHead q = .root)), Item.query (.exist (headP (pathHead q) ch))])
-      (buildPath c.env cfg false (pathT q))
+      (buildPath c.env cfg false (pathT q)) (posPath c.env cfg p q)
 
 end JPV.PP
